@@ -89,6 +89,10 @@ def check(ctx):
         taken = []
         for b, t, fr in f.iter_calls():
             if fr and lib.tail(mir.fn_name(fr), 1) in ("map_or", "and_then", "map") and t["args"]:
+                # `.and_then(Option::take)`: the function item itself
+                fi_ = op_fn(t["args"][-1])
+                if fi_ is not None and lib.tail(mir.fn_name(fi_), 2) == "Option::take":
+                    taken.append(b)
                 for o in origins(f, t["args"][-1]):
                     if o[0] == "agg":
                         ag = f.blocks[o[1]]["stmts"][o[2]]["rv"]["agg"]
@@ -116,6 +120,10 @@ def check(ctx):
                   "the system is taken from and put back under different names: %s" % [sorted(k) for k in keys])
         if nm == "named_syscall_direct":
             errs = [b for b, i, st in f.iter_stmts() if st["k"] == "assign" and st["place"]["l"] == 0 and "agg" in st["rv"] and st["rv"]["agg"].get("vname") == "Err"]
+            # ... or through `?` (the Err is rebuilt by from_residual)
+            errs += [b for b, t, fr in f.iter_calls() if lib.is_call(fr, "FromResidual::from_residual") and not t["dest"]["p"]
+                     and (t["dest"]["l"] == 0 or any(st["k"] == "assign" and st["place"]["l"] == 0 and "use" in st["rv"] and (op_place(st["rv"]["use"]) or {}).get("l") == t["dest"]["l"]
+                                                     for _, _, st in f.iter_stmts()))]
             ctx.check(bool(errs) and not any(b in f.reach_from(lib.call_target(f, r)) for r in rn for b in errs), "C17.b", "named_syscall_direct:err-before-any-run",
                       f.loc(errs[0]) if errs else "", "Err is returned only on a path without a run", "Err can be returned after the system ran")
     try:
